@@ -28,6 +28,7 @@ Spec == Init /\ [][Next]_vars
 Obs(st) ==
   [st EXCEPT !.ch = [i \in 1..Len(st.ch) |->
       [nm |-> st.ch[i].nm, cid |-> st.ch[i].cid, sl |-> st.ch[i].sl, eb |-> st.ch[i].eb,
+       wt |-> st.ch[i].wt, mp |-> st.ch[i].mp,
        du |-> ChanDur(st.ch[i]), df |-> ChanDurFall(CfgOf(st, i), st.ch[i])]]]
 
 Emit == PrintT("ST|" \o ToJson([h |-> hist, s |-> Obs(s), v |-> viol]))
